@@ -99,7 +99,7 @@ func c07wire(stats map[string]int) {
 	// ---- client side: partial updates touching an excluded field fail before anything is sent
 	pu := client.MethodByName("PartialUpdate")
 	puType := pu.Type().In(1)
-	for _, touch := range []string{"set:Id", "set:Created", "delete:Id", "delete:Created", "delete:Nested", "nested-set:B", "nested-delete:B"} {
+	for _, touch := range []string{"set:Id", "set:Created", "delete:Id", "delete:Created", "delete:Nested", "nested-set:B", "nested-delete:B", "set-whole:Nested"} {
 		p := reflect.New(puType.Elem())
 		kind, field, _ := strings.Cut(touch, ":")
 		expectFail := true
@@ -121,6 +121,9 @@ func c07wire(stats map[string]int) {
 			n := p.Elem().FieldByName("Nested")
 			n.Set(reflect.New(n.Type().Elem()))
 			n.Elem().FieldByName("Delete_Fields").FieldByName(field).SetBool(true)
+		case "set-whole": // $set of the whole record, read-only sub-field b included
+			f := p.Elem().FieldByName("Set_Fields").FieldByName(field)
+			f.Set(full.value(f.Type(), ""))
 		}
 		*rec = wireRec{}
 		before := invoked
@@ -129,6 +132,14 @@ func c07wire(stats map[string]int) {
 		failed := !rets[0].IsNil()
 		sent := rec.verb != ""
 		cs := map[string]any{"touch": touch, "sent": sent, "error": fmt.Sprint(rets[0]), "request_body": rec.body}
+		if kind == "set-whole" {
+			// $set of a whole record whose value carries the read-only sub-field: refusing it, or sending the record without
+			// that sub-field, both keep the promise; transmitting the sub-field does not
+			if sent && len(carries(rec.body, "nested/b", "b")) > 0 {
+				violation("C07/wire/client-transmits-excluded-field/PartialUpdate/"+touch, fmt.Sprintf("the partial update transmitted the read-only sub-field: %s", rec.body), cs)
+			}
+			continue
+		}
 		if expectFail && (!failed || sent || invoked != before) {
 			violation("C07/wire/client-partial-update-not-refused/"+touch, fmt.Sprintf("a partial update touching an excluded field (%s): failed=%v, request sent=%v", touch, failed, sent), cs)
 		}
@@ -161,6 +172,10 @@ func c07wire(stats map[string]int) {
 		{"partial_update/nested-set-b", "POST", "/collStr/k", "partial_update", `{"patch":{"nested":{"$set":{"b":"x"}}}}`, true},
 		{"partial_update/nested-delete-b", "POST", "/collStr/k", "partial_update", `{"patch":{"nested":{"$delete":["b"]}}}`, true},
 		{"partial_update/clean", "POST", "/collStr/k", "partial_update", `{"patch":{"$set":{"name":"n"},"nested":{"$set":{"a":2}}}}`, false},
+		// $set of a WHOLE record / array that carries a read-only sub-field: the document carries a value at nested/b, tags/*/b
+		{"partial_update/set-nested-carrying-b", "POST", "/collStr/k", "partial_update", `{"patch":{"$set":{"nested":{"a":1,"b":"x"}}}}`, true},
+		{"partial_update/set-tags-carrying-b", "POST", "/collStr/k", "partial_update", `{"patch":{"$set":{"tags":[{"a":1},{"a":2,"b":"x"}]}}}`, true},
+		{"partial_update/set-nested-without-b", "POST", "/collStr/k", "partial_update", `{"patch":{"$set":{"nested":{"a":1}}}}`, false},
 		{"batch_partial_update/set-id", "POST", "/collStr?ids=List(k)", "batch_partial_update", `{"entities":{"k":{"patch":{"$set":{"id":5}}}}}`, true},
 		{"batch_partial_update/clean", "POST", "/collStr?ids=List(k)", "batch_partial_update", `{"entities":{"k":{"patch":{"$set":{"name":"n"}}}}}`, false},
 	}
